@@ -338,20 +338,39 @@ def add_relations(rng, prog, feat):
         if a.bodies[x].order > a.bodies[y].order:
             x, y = y, x
         cands.append({"kind": "before", "a": x, "b": y, "rdep": bool(f["rdep"] and rng.random() < 0.5)})
+    if rng.random() < f.get("p_self_conflict_excl", 0.0):
+        # the shape of fixed finding F9: one transaction calls x and y in different alternatives of one
+        # control structure and x.add_conflict(y, priority)
+        opts = []
+        for t in a.transactions:
+            ms = a.tree_methods.get(t, [])
+            for i, x in enumerate(ms):
+                for y in ms[i + 1:]:
+                    if a.self_conflict_exclusive(t, x, y):
+                        opts.append((x, y))
+        if opts:
+            x, y = rng.choice(opts)
+            if rng.random() < 0.5:
+                x, y = y, x
+            cands.insert(0, {"kind": "conflict", "a": x, "b": y, "prio": rng.choice(["U", "L", "R"])})
     for r in cands:
         trial = copy.deepcopy(prog)
         trial["relations"].append(r)
         ta = Analysis(trial)
-        if ta.defects():
+        d = ta.defects()
+        if any(x[0] != "self-conflict" for x in d):
             continue
         if r["kind"] == "conflict":
             selfs = [(x, rr) for x, y, rr in ta.explicit_pairs() if x == y and rr is trial["relations"][-1]]
             if selfs:
-                # one transaction reaches both sides of the conflict (shapes of findings F8 / F9): only at a
-                # low rate, and on non-exclusive paths only where the property under test speaks about it
+                # one transaction reaches both sides of the conflict (shapes of the fixed findings F8 / F9): on
+                # exclusive paths a valid design; on non-exclusive paths ill-formed (rejected since the fix) and
+                # generated only where the property under test speaks about it (C02)
                 excl = all(ta.self_conflict_exclusive(x, ta.resolve(r["a"]), ta.resolve(r["b"])) for x, _ in selfs)
                 if rng.random() >= (f.get("p_self_conflict_excl", 0.0) if excl else f.get("p_self_conflict_nonexcl", 0.0)):
                     continue
+        if d and not f.get("p_self_conflict_nonexcl"):
+            continue
         if r["kind"] == "before" and r.get("rdep"):
             # the dependent side must not also be required by the source's own transactions
             if set(ta.trans_for.get(r["a"], [])) & set(ta.trans_for.get(r["b"], [])):
@@ -376,7 +395,7 @@ def generate(rng, feat=None, tries=60):
         prog = add_forwarding(rng, prog, f)
         prog = mark_single_callers(rng, prog)
         a = Analysis(prog)
-        if a.defects():
+        if any(x[0] != "self-conflict" or not f.get("p_self_conflict_nonexcl") for x in a.defects()):
             continue
         if f["no_amb"] and "AMB" in a.relation_table().values():
             continue
